@@ -95,6 +95,9 @@ func (g *gen) execScript(budget int, allowErrRes bool) []Outcome {
 	}
 	for i := 0; i < nfail; i++ {
 		o := Outcome{Fail: pick(g.r, failKinds), Both: g.chance(0.15)}
+		if g.chance(0.06) {
+			o.Fail = "typednil" // a nil pointer in a non-nil error interface is an error
+		}
 		if o.Both && allowErrRes && g.chance(0.5) {
 			o.Pay = "er" // a Result-style function reports the failure both ways: an error Result and the error
 		}
@@ -709,6 +712,15 @@ func genC03base(prop, tier string, r *rand.Rand) *Scn {
 		}
 		g.lateConnects()
 		g.dynamicConnects()
+		if r.IntN(6) == 0 {
+			// an inner flow used through a type that embeds *flyt.Flow and overrides
+			// Post: the parent routes on the action that Post returns
+			for _, n := range g.sc.Nodes {
+				if n.Kind == "flow" && n.ID != g.sc.Root && r.IntN(2) == 0 {
+					n.Wrap = pick(r, []string{"a", "b", "default", "ab"})
+				}
+			}
+		}
 		return g.sc
 	})
 }
@@ -922,6 +934,9 @@ func genC06(prop, tier string, r *rand.Rand) *Scn {
 	}
 	n := g.rootBatch(batchSize(r, 64), budget, pick(r, []int{0, 0, 10}), conc, stop, []string{"results", "anys", "ints", "strings", "single", "nil"})
 	g.timing(n)
+	if r.IntN(8) == 0 {
+		n.Visits[0].Post.Fail = pick(r, failKinds) // a failing post is still called once (the retry budget is for item executions)
+	}
 	if r.IntN(7) == 0 && len(n.Visits[0].Items) > 0 {
 		// post must wait for every item also when the run is cancelled meanwhile
 		g.sc.Ctx.Kind = "cancel"
